@@ -701,7 +701,7 @@ func parseCase(line string) (*wiring, []hTx, error) {
 				if next() == "EQ" {
 					op.DwField, op.DwVal = next(), string(unhx(next()))
 				}
-			case "AL", "RL":
+			case "AL", "RL", "AL1", "RL1", "LQ":
 				op.Store, op.Id, op.LinkF = next(), string(unhx(next())), next()
 				for k := nextInt(); k > 0; k-- {
 					op.Targets = append(op.Targets, string(unhx(next())))
